@@ -54,7 +54,7 @@ prop('C13',
      kani=[{'name': 'k_bool_laws'}, {'name': 'k_real_lattice'}, {'name': 'k_eu_lattice'},
            {'name': 'k_real_add_small_int'}, {'name': 'k_real_mul_small_int'},
            {'name': 'k_eu_semiring_small_int'}, {'name': 'k_complex_small_int'},
-           {'name': 'k_eu_semiring_small_int_mul', 'thorough_only': True}, {'name': 'k_complex_small_int_mul', 'thorough_only': True}],
+           {'name': 'k_eu_mulassoc_small_int', 'thorough_only': True}, {'name': 'k_complex_mulassoc_small_int', 'thorough_only': True}],
      assumptions=[A_VERUS, A_EXTRACT, A_KANI],
      replay={'kani': 'lattice', '*': 'ff'},
      explanation='FiniteField: new/value/negate/one/zero/add/mul/sub verbatim against integer arithmetic modulo P (generic P with 2(P-1) <= u128::MAX, discharged for each exported prime by compute); '
